@@ -1741,10 +1741,18 @@ package mpb
 //@   requires stat.AvailableWidth >= 0
 //@   modifies pkgstate("decor"), content(), written(), bFiller.tip, sFiller.count, sent("chan int"), recvd("chan int")
 
+// the message of a finished bar is cut to the width left for the filler (F15): whole when it fits
+//@ func clipMessage
+//@   props    C07 C02 C03 C04
+//@   assumes  text: plain(message) // the message carries no escape sequences: runewidth measures what the terminal shows
+//@   modifies nothing
+//@   ensures  fits: dw(result) <= max(0, width)
+//@   ensures  whole: dw(message) <= width ==> result == message
 //@ func BarFillerOnComplete$1$1
 //@   props    C02 C03 C07 C04
 //@   requires w != nil && okfiller(base) && st.AvailableWidth >= 0 && st.AvailableWidth <= 1<<31 && st.RequestedWidth <= 1<<31
-//@   ensures  message: st.Completed ==> called("io.WriteString") == old(called("io.WriteString")) + 1 && calledWith("io.WriteString", 0) == w && calledWith("io.WriteString", 1) == message
+//@   ensures  message: st.Completed ==> called("io.WriteString") == old(called("io.WriteString")) + 1 && calledWith("io.WriteString", 0) == w && calledWith("io.WriteString", 1) == returned("clipMessage", 0)
+//@              && calledWith("clipMessage", 0) == message && calledWith("clipMessage", 1) == st.AvailableWidth
 //@              && called("mpb.BarFiller.Fill") == old(called("mpb.BarFiller.Fill")) && result == returned("io.WriteString", 1)
 //@   ensures  passthrough: !st.Completed ==> called("mpb.BarFiller.Fill") == old(called("mpb.BarFiller.Fill")) + 1 && calledWith("mpb.BarFiller.Fill", 0) == base && calledWith("mpb.BarFiller.Fill", 1) == w
 //@              && calledWith("mpb.BarFiller.Fill", 2) == st && result == returned("mpb.BarFiller.Fill", 0) && called("io.WriteString") == old(called("io.WriteString"))
@@ -1752,7 +1760,8 @@ package mpb
 //@ func BarFillerOnAbort$1$1
 //@   props    C02 C03 C07 C04
 //@   requires w != nil && okfiller(base) && st.AvailableWidth >= 0 && st.AvailableWidth <= 1<<31 && st.RequestedWidth <= 1<<31
-//@   ensures  message: st.Aborted ==> called("io.WriteString") == old(called("io.WriteString")) + 1 && calledWith("io.WriteString", 0) == w && calledWith("io.WriteString", 1) == message
+//@   ensures  message: st.Aborted ==> called("io.WriteString") == old(called("io.WriteString")) + 1 && calledWith("io.WriteString", 0) == w && calledWith("io.WriteString", 1) == returned("clipMessage", 0)
+//@              && calledWith("clipMessage", 0) == message && calledWith("clipMessage", 1) == st.AvailableWidth
 //@              && called("mpb.BarFiller.Fill") == old(called("mpb.BarFiller.Fill")) && result == returned("io.WriteString", 1)
 //@   ensures  passthrough: !st.Aborted ==> called("mpb.BarFiller.Fill") == old(called("mpb.BarFiller.Fill")) + 1 && calledWith("mpb.BarFiller.Fill", 0) == base && calledWith("mpb.BarFiller.Fill", 1) == w
 //@              && calledWith("mpb.BarFiller.Fill", 2) == st && result == returned("mpb.BarFiller.Fill", 0) && called("io.WriteString") == old(called("io.WriteString"))
